@@ -171,7 +171,7 @@ enum { OP_IT_IN, OP_IT_PRE, OP_IT_POST, OP_FREE, OP_FREE_L, OP_FREE_R, OP_N };
 static const char *opname[] = { "iter_in", "iter_pre", "iter_post", "free", "free_left", "free_right" };
 
 static struct {
-	int pass, layout, sub, op, j;
+	int pass, layout, sub, op, j, owner;
 	int ldir, llen, lelem;			/* list cases */
 } C;
 static int g_count;				/* this case belongs to this worker's partition: count it */
@@ -190,8 +190,9 @@ static void case_text(vx_sb *d, vx_sb *r)
 	}
 	vx_sb_printf(d, "%s/%s shape=%s root=%d", passname[C.pass], layname[C.layout], shape_str, C.sub);
 	if (C.j >= 0) vx_sb_printf(d, " complete-after=%d", C.j);
-	vx_sb_printf(r, "pass=%s\nlayout=%s\nshape=%s\nk=%d\nsub=%d\nop=%s\nj=%d\n",
-		passname[C.pass], layname[C.layout], shape_str, K, C.sub, opname[C.op], C.j);
+	if (C.owner >= 0) vx_sb_printf(d, " deallocator-of-node-%d-frees-another-tree", C.owner);
+	vx_sb_printf(r, "pass=%s\nlayout=%s\nshape=%s\nk=%d\nsub=%d\nop=%s\nj=%d\nowner=%d\n",
+		passname[C.pass], layname[C.layout], shape_str, K, C.sub, opname[C.op], C.j, C.owner);
 }
 
 /* One signature per (clause, class): the first failing case in enumeration
@@ -297,7 +298,7 @@ static void run_iter_case(int op, int s, int j)
 	bintree_iterator_t it;
 	bintree_node_t *root = NA(s), *n;
 
-	C.op = op; C.sub = s; C.j = j;
+	C.op = op; C.sub = s; C.j = j; C.owner = -1;
 	memcpy(arena_mem, image0, sizeof(arena_mem));
 	ref_n = 0;
 	if (op == OP_IT_IN) ref_in(s); else if (op == OP_IT_PRE) ref_pre(s); else ref_post(s);
@@ -381,9 +382,23 @@ static void run_iter_case(int op, int s, int j)
 static int dlog[MAXSEQ], dlog_n; static uint64_t dlog_total;
 static uint8_t dcount[MAXK];
 
+/* a node may own something that is a tree itself: its deallocator then frees that tree with bintree_free
+ * while the outer bintree_free is still under way (the free functions must not share state between calls) */
+static int nested_owner = -1, nested_ran;
+static bintree_node_t side[3]; static uint8_t side_count[3];
+static void side_dealloc(bintree_node_t *n)
+{
+	for (int i = 0; i < 3; i++) if (n == &side[i]) { if (side_count[i] < 255) side_count[i]++; side[i].left = side[i].right = POISON; }
+}
 static void dealloc_cb(bintree_node_t *n)
 {
 	int id = id_of(n);
+	if (id >= 0 && id == nested_owner && !nested_ran) {
+		nested_ran = 1;
+		side[0].left = &side[1]; side[0].right = &side[2]; side[1].left = side[1].right = side[2].left = side[2].right = NULL;
+		memset(side_count, 0, sizeof(side_count));
+		bintree_free(&side[0], side_dealloc);
+	}
 	dlog_total++;
 	if (dlog_n < MAXSEQ) dlog[dlog_n++] = id;
 	if (id < 0) return;
@@ -407,7 +422,9 @@ static void run_free_case(int op, int s)
 	int pos[MAXK];
 	bintree_node_t *root = NA(s);
 
-	C.op = op; C.sub = s; C.j = -1;
+	C.op = op; C.sub = s; C.j = -1; C.owner = nested_owner;
+	nested_ran = 0;
+	if (nested_owner >= 0) CNT("free_cases_with_a_deallocator_that_frees_another_tree", 1);
 	if (g_guard) build_guard(); else memcpy(arena_mem, image0, sizeof(arena_mem));
 	memset(dcount, 0, sizeof(dcount)); dlog_n = 0; dlog_total = 0;
 	CNT("evaluations", 1);
@@ -438,6 +455,8 @@ static void run_free_case(int op, int s)
 
 	/* exactly once, nothing else */
 	vx_sb lg = {0}; seq_text(&lg, dlog, dlog_n);
+	if (nested_ran && (side_count[0] != 1 || side_count[1] != 1 || side_count[2] != 1))
+		fail("once", "nested-tree", "the 3-node tree freed from inside the deallocator of node %d had its nodes deallocated %d/%d/%d times", nested_owner, side_count[0], side_count[1], side_count[2]);
 	for (int i = 0; i < K; i++) pos[i] = -1;
 	int bad_once = 0;
 	for (int i = 0; i < dlog_n && !bad_once; i++) {
@@ -516,6 +535,13 @@ static void run_shape(void)
 		if (K <= CK)
 			for (int op = OP_IT_IN; op <= OP_IT_POST; op++)
 				for (int j = 1; j <= K; j++) run_case(op, 0, j);
+		/* every node in turn owns a second tree that its deallocator frees with bintree_free (small shapes) */
+		if (K <= 7 && lay == LAY_A8)
+			for (int owner = 0; owner < K; owner++) {
+				nested_owner = owner;
+				for (int op = OP_FREE; op < OP_N; op++) run_case(op, 0, -1);
+				nested_owner = -1;
+			}
 	}
 	if (K >= 1 && K <= GN) {
 		C.pass = PASS_GUARD; C.layout = LAY_A8;
@@ -677,6 +703,7 @@ int main(int argc, char **argv)
 			if ((f = vx_replay_field(rp, "op"))) snprintf(op, sizeof(op), "%s", f);
 			f = vx_replay_field(rp, "sub"); int s = f ? atoi(f) : 0;
 			f = vx_replay_field(rp, "j"); int j = f ? atoi(f) : -1;
+			f = vx_replay_field(rp, "owner"); nested_owner = f ? atoi(f) : -1;
 			int o = -1; for (int i = 0; i < OP_N; i++) if (!strcmp(op, opname[i])) o = i;
 			if (parse_shape(shp) || o < 0 || s >= K || (K && s < 0) || (!strcmp(pass, "guard") && K > MAXG)) { fprintf(stderr, "c11: bad replay\n"); return 3; }
 			if (!K) s = -1;
